@@ -2,6 +2,10 @@ package main
 
 import (
 	"bytes"
+	"encoding/json"
+	"math/rand"
+
+	"verifharness/proj"
 
 	"github.com/protobom/protobom/pkg/formats"
 	"github.com/protobom/protobom/pkg/sbom"
@@ -12,13 +16,28 @@ type nopCloser struct{ *bytes.Buffer }
 
 func (nopCloser) Close() error { return nil }
 
-// serializeQuery writes a document holding the node list in the given format and discards the output.
-func serializeQuery(q string, nl *sbom.NodeList) string {
+// serializeQuery writes a document holding the node list (and seeded, richly populated metadata: authors, tools,
+// document types, date) in the given format and discards the output.  The second result names the part of the
+// document outside the node list that differs, field by field and order-sensitively, after the call ("" when none).
+func serializeQuery(q string, nl *sbom.NodeList, k int) (string, string) {
 	f := map[string]formats.Format{"WriteSPDX23": formats.SPDX23JSON, "WriteCDX14": formats.CDX14JSON, "WriteCDX15": formats.CDX15JSON}[q]
 	doc := sbom.NewDocument()
-	doc.Metadata.Id = "urn:uuid:00000000-0000-0000-0000-000000000001"
+	r := rand.New(rand.NewSource(int64(k)*7919 + 1))
+	fillMsg(r, doc.Metadata.ProtoReflect(), 0.7, 2, nil)
+	if doc.Metadata.Id == "" {
+		doc.Metadata.Id = "urn:uuid:00000000-0000-0000-0000-000000000001"
+	}
 	doc.NodeList = nl
+	before, _ := json.Marshal(proj.Msg(doc.Metadata.ProtoReflect()))
+	md := doc.Metadata
 	var buf bytes.Buffer
 	err := writer.New().WriteStreamWithOptions(doc, nopCloser{&buf}, &writer.Options{Format: f})
-	return errText(err)
+	changed := ""
+	switch after, _ := json.Marshal(proj.Msg(md.ProtoReflect())); {
+	case doc.Metadata != md || doc.NodeList != nl:
+		changed = "parts-replaced"
+	case !bytes.Equal(before, after):
+		changed = "metadata"
+	}
+	return errText(err), changed
 }
